@@ -13,12 +13,14 @@ META = {
     "stubs": ["the function under inversion: one arbitrary strictly monotone function per tensor element -- every evaluation returns a fresh "
               "value constrained only by strict monotonicity against all earlier evaluations and against the (symbolic) root; "
               "replay uses x^3 + x (resp. its negative) scaled per element"],
-    "axioms": ["linear real arithmetic with ite; for implied volatility: Black-Scholes price strictly increasing in volatility "
-               "(vega > 0, C08/C09 + mean-value theorem) instantiated between every evaluated volatility and the generating one"],
+    "axioms": ["linear real arithmetic with ite; for implied volatility: the true Black-Scholes price is strictly monotone in volatility "
+               "(sign of vega decided in lemma/vega-sign/* for European and European binary on log-moneyness > 0, trusted for the lookback; "
+               "+ mean-value theorem), instantiated between every evaluated volatility and the generating one"],
     "assumptions": ["continuity is assumed through the existence of a root r with f(r) = target inside the bracket",
                     "bracket width / precision <= 2^6 (quick) / 2^10 (thorough): the real loop is unrolled by the path explorer; "
                     "precision 1e-6 on the real bracket (20 iterations of Phi-terms) is outside the claim",
-                    "European / American binary implied volatility not claimed (price not monotone in volatility)"],
+                    "European binary implied volatility only on log-moneyness > 0 (call decreasing, put increasing in volatility); "
+                    "on log-moneyness <= 0 and for the American binary the price is not monotone in volatility: not claimed"],
 }
 
 
@@ -104,46 +106,66 @@ def bisect_case(shape, lower, upper, precision, increasing, tensor_bounds=False,
     return fn
 
 
+IV_KINDS = {
+    # kind: (module factory, module file holding the find_implied_volatility reference, direction of the price in volatility, domain)
+    "european": (lambda nn, K: nn.BSEuropeanOption(strike=K), "pfhedge.nn.modules.bs.european", +1),
+    "european-put": (lambda nn, K: nn.BSEuropeanOption(call=False, strike=K), "pfhedge.nn.modules.bs.european", +1),
+    "lookback": (lambda nn, K: nn.BSLookbackOption(strike=K), "pfhedge.nn.modules.bs.lookback", +1),
+    # European binary: monotone in volatility on log-moneyness > 0 only (call decreasing, put increasing)
+    "eubinary-call-itm": (lambda nn, K: nn.BSEuropeanBinaryOption(strike=K), "pfhedge.nn.modules.bs.european_binary", -1),
+    "eubinary-put-otm": (lambda nn, K: nn.BSEuropeanBinaryOption(call=False, strike=K), "pfhedge.nn.modules.bs.european_binary", +1),
+}
+
+
 def iv_case(kind, precision):
     """implied_volatility(price(v0)) reproduces v0 to the requested precision"""
 
     def fn(c):
+        import importlib
+
         from pfhedge import nn
 
+        make, modname, direction = IV_KINDS[kind]
         K = api.real(c, "K", pos=True)
         shape = (1,)
-        s = api.tensor(c, "s", shape, lo=-1, hi=1)
+        if kind.startswith("eubinary"):
+            s = api.tensor(c, "s", shape, pos=True, hi=1)
+            if c.mode == "sym":
+                c.assume(api.gt(elem(s, 0), 0))
+        else:
+            s = api.tensor(c, "s", shape, lo=-1, hi=1)
         t = api.tensor(c, "t", shape, pos=True, hi=5)
         v0 = api.tensor(c, "v0", shape, lo=Fraction(1, 1000), hi=1)
         with facades.real_torch():
-            m = nn.BSEuropeanOption(strike=K) if kind == "european" else nn.BSLookbackOption(strike=K)
+            m = make(nn, K)
         extra = {}
         if kind == "lookback":
             mx = api.tensor(c, "m", shape, lo=-1, hi=1)
             c.assume(api.ge(elem(mx, 0), elem(s, 0)))
             extra = {"max_log_moneyness": mx}
-        real_price = m.price
-        p0 = real_price(log_moneyness=s, time_to_maturity=t, volatility=v0, **extra)
-        seen = []
+        state = dict(log_moneyness=s, time_to_maturity=t, **extra)
+        p0 = m.price(volatility=v0, **state)
+        seen, n_eval = [], [0]
+        lt, gt = (tm.lt, tm.gt) if direction > 0 else (tm.gt, tm.lt)
 
-        def price(volatility=None, **kw):
-            out = real_price(volatility=volatility, **kw)
-            if c.mode == "sym":
-                # vega > 0: strictly increasing in volatility (trusted, see META)
-                for a, b, y, y0 in zip(st.terms_of(volatility) * len(st.terms_of(out)), st.terms_of(v0), st.terms_of(out), st.terms_of(p0)):
-                    c.assume(tm.implies(tm.lt(a, b), tm.lt(y, y0)))
-                    c.assume(tm.implies(tm.gt(a, b), tm.gt(y, y0)))
-                    c.assume(tm.implies(tm.eq(a, b), tm.eq(y, y0)))
-                for (a2, y2) in seen:
-                    for a, y in zip(st.terms_of(volatility) * len(st.terms_of(out)), st.terms_of(out)):
-                        c.assume(tm.implies(tm.lt(a, a2), tm.lt(y, y2)))
-                        c.assume(tm.implies(tm.gt(a, a2), tm.gt(y, y2)))
-                seen.append((st.terms_of(volatility)[0], st.terms_of(out)[0]))
-            seen_kw.append(kw)
-            return out
+        def lemma(volatility):
+            """the TRUE price (the module's own price(), evaluated by the harness at the caller's state) is strictly monotone in
+            volatility: instantiated between the queried volatility, the generating one and all earlier queries.  It constrains the
+            value the code under test computes only if that is the same term."""
+            n_eval[0] += 1
+            if c.mode != "sym":
+                return
+            truth = m.price(volatility=volatility, **state)
+            for a, b, y, y0 in zip(st.terms_of(volatility) * len(st.terms_of(truth)), st.terms_of(v0), st.terms_of(truth), st.terms_of(p0)):
+                c.assume(tm.implies(tm.lt(a, b), lt(y, y0)))
+                c.assume(tm.implies(tm.gt(a, b), gt(y, y0)))
+                c.assume(tm.implies(tm.eq(a, b), tm.eq(y, y0)))
+            for (a2, y2) in seen:
+                for a, y in zip(st.terms_of(volatility) * len(st.terms_of(truth)), st.terms_of(truth)):
+                    c.assume(tm.implies(tm.lt(a, a2), lt(y, y2)))
+                    c.assume(tm.implies(tm.gt(a, a2), gt(y, y2)))
+            seen.append((st.terms_of(volatility)[0], st.terms_of(truth)[0]))
 
-        seen_kw = []
-        m.price = price
         import pfhedge._utils.bisect as bmod
 
         real_bisect, rec = bmod.bisect, []
@@ -155,11 +177,16 @@ def iv_case(kind, precision):
             rec.append((lower, upper, kw))
             if kw.get("precision") != precision:
                 raise WrongCall()  # do not unroll a search at a precision nobody asked for
-            return real_bisect(fn_, target, lower, upper, **kw)
+
+            def fn_w(vol):
+                lemma(vol)
+                return fn_(vol)
+
+            return real_bisect(fn_w, target, lower, upper, **kw)
 
         bmod.bisect = spy
         try:
-            iv = m.implied_volatility(log_moneyness=s, time_to_maturity=t, price=p0, precision=precision, **extra)
+            iv = m.implied_volatility(price=p0, precision=precision, **state)
         except WrongCall:
             c.check("the search runs at the requested precision", False)
             return
@@ -170,18 +197,48 @@ def iv_case(kind, precision):
         c.check("implied volatility shape", tuple(iv.shape) == shape)
         c.check("|IV(price(v0)) - v0| <= precision", api.le(api.absv(elem(iv, 0) - elem(v0, 0)), precision))
         c.check("IV inside the search bracket", api.all_(api.ge(elem(iv, 0), Fraction(1, 1000)), api.le(elem(iv, 0), 1)))
-        c.check("pricer evaluated at the caller's state", all(k["log_moneyness"] is s and k["time_to_maturity"] is t for k in seen_kw) and len(seen_kw) >= 3)
-        if kind == "lookback":
-            c.check("running maximum passed through", all(k.get("max_log_moneyness") is extra["max_log_moneyness"] for k in seen_kw))
-        if kind == "european":
+        c.check("the pricer is evaluated during the search", n_eval[0] >= 3)
+        if kind in ("european", "eubinary-call-itm"):
             c.control("control:|IV - v0| <= precision/16", api.le(api.absv(elem(iv, 0) - elem(v0, 0)), precision / 16))
+
+    return fn
+
+
+def vega_sign_case(kind):
+    """the monotonicity lemma used by the IV cases, decided rather than trusted where the axiom list suffices: the symbolic derivative of
+    the executed price() w.r.t. volatility has a strict sign on the whole domain (monotone by the mean-value theorem)"""
+
+    def fn(c):
+        from harness.c08 import dfun
+        from pfhedge import nn
+
+        make, _, direction = IV_KINDS[kind]
+        K = api.real(c, "K", pos=True)
+        if kind.startswith("eubinary"):
+            s = api.tensor(c, "s", (1,), pos=True, hi=1)
+            if c.mode == "sym":
+                c.assume(api.gt(elem(s, 0), 0))
+        else:
+            s = api.tensor(c, "s", (1,), lo=-1, hi=1)
+        t = api.tensor(c, "t", (1,), pos=True, hi=5)
+        v = api.tensor(c, "v", (1,), pos=True, hi=1)
+        with facades.real_torch():
+            m = make(nn, K)
+        P_v = dfun(c, lambda y: m.price(log_moneyness=s, time_to_maturity=t, volatility=y), v)
+        if direction > 0:
+            c.check("price strictly increasing in volatility (dP/dv > 0)", api.gt(elem(P_v, 0), 0))
+            c.control("control:dP/dv < 0", api.lt(elem(P_v, 0), 0))
+        else:
+            c.check("price strictly decreasing in volatility (dP/dv < 0)", api.lt(elem(P_v, 0), 0))
+            c.control("control:dP/dv > 0", api.gt(elem(P_v, 0), 0))
 
     return fn
 
 
 def cases():
     cs = []
-    enc = ("pfhedge._utils.bisect.bisect", "find_implied_volatility", "BSEuropeanOption.implied_volatility", "BSLookbackOption.implied_volatility")
+    enc = ("pfhedge._utils.bisect.bisect", "find_implied_volatility", "BSEuropeanOption.implied_volatility", "BSLookbackOption.implied_volatility",
+           "BSEuropeanBinaryOption.implied_volatility")
     H = Fraction(1, 2)
     for inc in (True, False):
         d = "inc" if inc else "dec"
@@ -204,6 +261,13 @@ def cases():
                    "log-moneyness in [-1,1], t in (0,5], K>0, v0 in [0.001,1]", families=("basic", "mono", "bounds"), max_paths=8, timeout=120))
     cs.append(Case("iv/lookback/2^-3", iv_case("lookback", 0.125), encodes=enc, bounds="precision 1/8 (3 iterations)", families=("basic", "mono", "bounds"),
                    max_paths=8, timeout=120, wall=240))
+    for k in ("european-put", "eubinary-call-itm", "eubinary-put-otm"):
+        cs.append(Case("iv/%s/2^-3" % k, iv_case(k, 0.125), encodes=enc, bounds="precision 1/8 (3 iterations)%s" % (
+            "; log-moneyness in (0,1] where the binary price is monotone in volatility" if "binary" in k else ""),
+            families=("basic", "mono", "bounds"), max_paths=8, timeout=120))
+    for k in ("european", "european-put", "eubinary-call-itm", "eubinary-put-otm"):
+        cs.append(Case("lemma/vega-sign/%s" % k, vega_sign_case(k), encodes=enc, bounds="whole domain t>0, v>0, K>0%s" % (
+            ", log-moneyness > 0" if "binary" in k else ""), families=("basic", "mono", "bounds"), batch=False, timeout=120))
     cs.append(Case("iv/european/2^-5", iv_case("european", 1 / 32), tier="thorough", encodes=enc, bounds="precision 1/32 (5 iterations)",
                    families=("basic", "mono", "bounds"), max_paths=8, timeout=600))
     return cs
